@@ -61,17 +61,46 @@ def _digitize(case):
         base = numpy.array([-8.5, -3.25, -3.0, -0.5, 0.0, 0.125, 1.0, 1.5, 4.0, 16.0, 16.5, 1024.0])
         edges = [base[:L], base[-L:], base[::2][:max(1, L // 2)]]
         xs = None
-    for asc in edges:
+    # container / dtype alphabet of `bins` (the statement is about the values of the edges): every NumPy real dtype able to
+    # hold the edges, a list, a tuple, and non-contiguous views; plus integer edges spanning more than half the dtype's range
+    variants = [(asc, "float64") for asc in edges]
+    if case["kind"] == "digitize" and L <= 24:
+        from checks.catalog import layouts
+        asc = edges[0]
+        for dt in ("float32", "float16", "int64", "int32", "int16", "int8", "uint8", "uint16", "uint32", "uint64"):
+            if asc.max() <= (numpy.iinfo(dt).max if dt[0] in "iu" else 2048):
+                variants.append((asc.astype(dt), dt))
+        variants.append((asc.tolist(), "list"))
+        variants.append((tuple(asc.tolist()), "tuple"))
+        for nm, v in layouts(asc)[1:]:
+            variants.append((v, "float64, " + nm))
+        if 2 <= L <= 8:
+            for dt in ("int8", "int16", "int32", "int64"):
+                ii = numpy.iinfo(dt)
+                wide = numpy.unique(numpy.linspace(ii.min + 1, ii.max - 1, L).astype(dt)) if dt != "int64" else \
+                    numpy.unique(numpy.array([-(2 ** 53), -5, 0, 7, 2 ** 40, 2 ** 53][:L], dtype=dt))
+                variants.append((wide, dt + " wide span"))
+    for asc, vname in variants:
         for direction in ("inc", "dec"):
-            bins = asc if direction == "inc" else asc[::-1].copy()
-            if len(bins) == 1 and direction == "dec":
+            if isinstance(asc, (list, tuple)):
+                bins = asc if direction == "inc" else type(asc)(asc[::-1])
+            elif vname.startswith("float64, "):
+                bins = asc if direction == "inc" else asc[::-1]
+            else:
+                bins = asc if direction == "inc" else asc[::-1].copy()
+            asc_a = numpy.asarray(asc)
+            if vname != "float64":
+                direction = "%s,bins %s" % (direction, vname.split(" ")[0] if "wide" not in vname else vname)
+            if len(bins) == 1 and direction.startswith("dec"):
                 continue
-            if xs is None:
-                mids = (asc[:-1] + asc[1:]) / 2 if len(asc) > 1 else numpy.array([])
-                x = numpy.concatenate([asc, mids, [asc[0] - 1, asc[-1] + 1]])
+            if xs is None or "wide" in vname:
+                af = asc_a.astype(numpy.float64)
+                mids = (af[:-1] + af[1:]) / 2 if len(af) > 1 else numpy.array([])
+                x = numpy.concatenate([af, mids, [af[0] - 1, af[-1] + 1]])
+                x = x.astype(numpy.float32).astype(numpy.float64)
             else:
                 x = xs
-            bins0 = bins.copy()
+            bins0 = numpy.array(bins, copy=True)
             sig = "digitize2tree|%%s|%s" % direction
             try:
                 tree = digitize2tree(bins, right=True)
@@ -79,19 +108,19 @@ def _digitize(case):
             except Exception as e:
                 viol.append({"sig": sig % ("raises " + type(e).__name__), "msg": "%s L=%d" % (e, len(bins))})
                 continue
-            exp = numpy.digitize(x, bins, right=True)
+            exp = numpy.digitize(x, numpy.asarray(bins0, dtype=numpy.float64), right=True)
             cnt += len(x)
-            if not numpy.array_equal(bins, bins0):
+            if not numpy.array_equal(numpy.asarray(bins), bins0):
                 viol.append({"sig": sig % "bins modified", "msg": "L=%d" % len(bins)})
             if pred.shape != exp.shape or not numpy.array_equal(pred, exp):
                 k = int(numpy.argmax(pred != exp)) if pred.shape == exp.shape else -1
                 viol.append({"sig": sig % "differs from numpy.digitize",
-                             "msg": "bins=%r x=%r tree=%r numpy=%r" % (bins.tolist()[:8], x[k], pred[k] if k >= 0 else pred.shape, exp[k])})
+                             "msg": "bins=%r x=%r tree=%r numpy=%r" % (list(numpy.asarray(bins).tolist())[:8], x[k], pred[k] if k >= 0 else pred.shape, exp[k])})
             # single rows as well (batch independence of the built tree)
             if len(bins) <= 8:
                 for v in x:
-                    if tree.predict(numpy.array([[v]]))[0] != numpy.digitize(v, bins, right=True):
-                        viol.append({"sig": sig % "differs from numpy.digitize", "msg": "single x=%r bins=%r" % (v, bins.tolist())})
+                    if tree.predict(numpy.array([[v]]))[0] != numpy.digitize(v, numpy.asarray(bins0, dtype=numpy.float64), right=True):
+                        viol.append({"sig": sig % "differs from numpy.digitize", "msg": "single x=%r bins=%r" % (v, bins0.tolist())})
                         break
     return {"viol": viol, "nontrivial": L >= 2, "transitions": cnt, "outcome": ("dig", L)}
 
